@@ -997,3 +997,5 @@ UNITS += READER_UNITS
 
 from . import standins
 STANDINS = [standins.c08_matcher]
+
+PROBES = [chem.probe_bond_codes]
